@@ -58,6 +58,18 @@ Theorem C37_hive2_peers_total : forall (base : list N) (ping_ok : bool) (m : opt
 Proof. intros. apply hive_peers_total. Qed.
 Print Assumptions C37_hive2_peers_total.
 
+(** chunkinfo response (and the discover worker it waits for): any presence map — arbitrary
+    string keys, vectors of any length — in any discovery state *)
+Theorem C37_chunkinfo_resp_total : forall (st : ci_state) (fwd_ok : bool) (m : option ci_resp),
+  chunkinfo_resp true st fwd_ok m <> Panicked.
+Proof. exact chunkinfo_resp_total. Qed.
+Print Assumptions C37_chunkinfo_resp_total.
+
+Theorem C37_chunkinfo_req_total : forall (self : list N) (fwd_ok : bool) (m : option ci_req),
+  chunkinfo_req self fwd_ok m <> Panicked.
+Proof. exact chunkinfo_req_total. Qed.
+Print Assumptions C37_chunkinfo_req_total.
+
 (** non-vacuity: the models distinguish outcomes — a complete valid exchange succeeds,
     and the unrepaired code does panic on a SynAck without Syn *)
 Example C37_nonvacuous :
